@@ -42,7 +42,7 @@ VERIF="$TARGET/release/verif"
 
 # properties whose statement distinguishes build profiles also get the dev-profile binary
 case "$ID" in
-  C01|C07|C02|C03|C08|C09|C10|C04)
+  C01|C07|C02|C03|C08|C09|C10|C04|C13|C14|C16)
     build --profile=dev verif
     export VERIF_DEBUG_EXE="$TARGET/debug/verif"
     ;;
